@@ -40,6 +40,9 @@ class C13(Prop):
         per = {"quick": 8, "thorough": 300}[tier]
         extra = {"quick": 2, "thorough": 6}[tier]
         i = 0
+        for zi, zone in enumerate(ZONES):
+            if zi % nshards == shard % len(ZONES) or nshards == 1:
+                yield {"kind": "clock_moves", "zone": zone, "now": 1_790_000_000 + zi * 86400 * 3 + seed * 7200}
         for zone in ZONES:
             r = env.rng("C13", seed, zone)
             base = r.randrange(1_690_000_000, 1_800_000_000)
@@ -101,8 +104,53 @@ class C13(Prop):
                                   + (f" {WD[want[1]]}" if want[0] == 'next' else ""),
                                   {"start": start, "days": sorted(days), "got": text, "want": [want[0], WD[want[1]]], "zone": zone, "now": now})
 
+    def _clock_moves_during_the_call(self, case, acc):
+        """Midnight (or the start minute) passes while pretty_next_run is running: at every line boundary of the call the wall
+        clock is moved by half a minute; the answer must be right for the instant before or the instant after."""
+        from ..monitors import preempt
+
+        zone, now = case["zone"], case["now"]
+        clock.set_zone(zone)
+        loc = clock.local(zone, now)
+        midnight = now - (loc.hour * 3600 + loc.minute * 60 + loc.second) + 86400
+        f = self.tools.pretty_next_run
+        r = env.rng("C13", "moving", zone, now)
+        for t0, start in ((midnight - 15, "12:00"), (midnight - 15, "00:00"), (midnight - 43200 - 15, "12:00")):
+            if clock.local(zone, t0 + 30).utcoffset() != clock.local(zone, t0).utcoffset():
+                continue
+            for days in [ALL_SETS[r.randrange(1, 128)] for _ in range(6)] + [frozenset({clock.local(zone, t0).weekday()}), frozenset({clock.local(zone, t0 + 30).weekday()})]:
+                dayset = {self.members[d] for d in days}
+                sm = int(start[:2]) * 60 + int(start[3:])
+                wants = []
+                for t_ in (t0, t0 + 30):
+                    l_ = clock.local(zone, t_)
+                    wants.append(clock.next_run(l_.weekday(), l_.hour * 60 + l_.minute, sm, set(days)))
+                with clock.virtual_time(t0) as traveller:
+                    k = 0
+                    while True:
+                        k += 1
+                        traveller.move_to(float(t0))
+                        res, moved, n = preempt._run_with_preemption(lambda: f(start, dayset), lambda: traveller.shift(30), str(env.SRC), at=k)
+                        if k > n:
+                            break
+                        acc.ev()
+                        acc.count("calls_during_which_the_clock_moved")
+                        if isinstance(res, preempt.Raised):
+                            acc.violation("raised:clock-moved-during-the-call", f"pretty_next_run({start},{sorted(days)}) raised {res!r} when the clock moved during the call", {})
+                            continue
+                        got = clock.classify_text(res, start)
+                        if not any(got[0] == w[0] and (w[0] != "next" or got[1] == w[1]) for w in wants):
+                            acc.violation("next-run-wrong:clock-moved-during-the-call", f"{zone}: the clock went from {clock.local(zone, t0):%a %H:%M:%S} to "
+                                          f"{clock.local(zone, t0 + 30):%a %H:%M:%S} while pretty_next_run({start}, {[WD[d] for d in sorted(days)]}) was running (at line boundary {k}): "
+                                          f"it answered {res!r}; right before it is {wants[0][0]}, right after {wants[1][0]}",
+                                          {"zone": zone, "t0": t0, "start": start, "days": sorted(days), "got": res})
+
     def run_case(self, case, acc, ctx):
         import calendar
+
+        if case.get("kind") == "clock_moves":
+            self._clock_moves_during_the_call(case, acc)
+            return
 
         zone, now = case["zone"], case["now"]
         # process-wide settings a host application may have changed for its own purposes
@@ -193,6 +241,32 @@ class C13(Prop):
         if differs:
             acc.sample({"zone": zone, "virtual_now_utc": utc.isoformat(), "local": loc.isoformat(),
                         "grid_start_minutes": grid, "day_sets": 128})
+
+
+    def thread_pairs(self, ctx):
+        from ..monitors.threadops import FROZEN_AT
+
+        clock.set_zone("Asia/Jerusalem")
+        loc = clock.local("Asia/Jerusalem", FROZEN_AT)
+        wd, now_min = loc.weekday(), loc.hour * 60 + loc.minute
+        f = self.tools.pretty_next_run
+
+        def judge(days, start):
+            sm = int(start[:2]) * 60 + int(start[3:])
+            want = clock.next_run(wd, now_min, sm, set(days))
+
+            def j(res):
+                if not isinstance(res, str):
+                    return f"{res!r}"
+                got = clock.classify_text(res, start)
+                ok = got[0] == want[0] and (want[0] != "next" or got[1] == want[1])
+                return None if ok else f"returned {res!r}, want {want[0]}" + (f" {WD[want[1]]}" if want[0] == "next" else "")
+            return j
+
+        da, db, dc = {(wd + 2) % 7}, {(wd + 4) % 7, (wd + 5) % 7}, {wd, (wd + 1) % 7}
+        m = lambda ds: {self.members[d] for d in ds}
+        return [("pretty_next_run({+2d}) || pretty_next_run({+4d,+5d})", lambda: f("12:00", m(da)), lambda: f("12:00", m(db)), judge(da, "12:00"), judge(db, "12:00")),
+                ("pretty_next_run({today,+1d}) || pretty_next_run({+2d})", lambda: f("00:10", m(dc)), lambda: f("23:50", m(da)), judge(dc, "00:10"), judge(da, "23:50"))]
 
 
 PROP = C13()
